@@ -75,6 +75,8 @@ def _alphabet(T, dt):
     # just inside the window within which the grid treats two times as one (1e-10 of the duration): next to a grid point, next to time 0
     g1 = dt / T if dt < T else g
     vals += [g1 + 5e-11, 5e-11]
+    # chains around a grid point whose links are shorter than the tolerance while the ends are further apart than it
+    vals += [g1 - 1.4e-10, g1 - 0.7e-10, g1 + 0.7e-10]
     out = []
     for v in vals:
         if 0.0 <= v <= 1.0 and v not in out:
@@ -100,7 +102,8 @@ def run_case(case):
     seq = kit.build_sequence(spec)
     mod = sv if be in ("sv", "svnoise") else m
     alph = _alphabet(T, dt)
-    sets = [c for k in range(1, case["k"] + 1) for c in itertools.combinations(alph, k)]
+    # singles and pairs over the whole alphabet; triples (thorough) over its first ten letters only (the boundary letters added later come last)
+    sets = [c for k in range(1, case["k"] + 1) for c in itertools.combinations(alph if k <= 2 else alph[:10], k)]
     noise = None
     Ls = None
     noise_term = None
@@ -116,6 +119,8 @@ def run_case(case):
     states = transitions = 0
     nontriv = 0
     chk = 0.0
+    known_hit = None
+    n_known = 0
     for ev in sets:
         ev = tuple(sorted(ev))
         first, second = _split(ev)
@@ -199,10 +204,32 @@ def run_case(case):
                     exp.append(t)
             if len(got) != len(exp) or any(abs(a - b) > 1e-9 for a, b in zip(got, exp)):
                 kind = "missing" if len(got) < len(exp) else ("extra" if len(got) > len(exp) else "shifted")
+                # Recorded finding: the grid merges times closer than 1e-10 of the duration (keeping the first of a run) and the backends match a
+                # requested time to EVERY grid time within 1e-10 - a requested time that sits between two kept grid times, less than the tolerance
+                # from each, is recorded twice.  It is that finding and nothing else iff the recorded times are exactly what these two documented
+                # rules produce from the inputs of this run.
+                Tn = float(T)
+                cands = sorted({i * float(dt) / Tn for i in range(int(np.floor(Tn / dt)) + 1)} | {1.0} | set(allev) | set(ckw.get("default_evaluation_times", [])))
+                kept = [cands[0]]
+                for c in cands[1:]:
+                    if c - kept[-1] > 1e-10:
+                        kept.append(c)
+                kept[-1] = 1.0
+                pred = [c for c in kept if any(abs(c - e) < 1e-10 for e in times)]
+                if kind == "extra" and len(got) == len(pred) and all(abs(a - b) <= 1e-12 for a, b in zip(got, pred)):
+                    if known_hit is None:
+                        known_hit = f"{label}: {tag} recorded at {[float(x) for x in got]} but requested at {sorted(times)} (grid keeps {[c for c in kept if abs(c - got[0]) < 5e-10]})"
+                    n_known += 1
+                    continue  # the rest of this case is still explored and judged
                 return result(False, sig=f"times|{be}|{mode}|{kind}", msg=f"{label}: {tag} recorded at {got} but requested at {exp}", outcome="times", states=states, transitions=transitions)
             if any(b <= a for a, b in zip(got, got[1:])):
                 return result(False, sig=f"times|{be}|order", msg=f"{label}: {tag} times not increasing: {got}", outcome="order", states=states, transitions=transitions)
             if ref is None:
+                continue
+            # values: not judged when two candidate times (requested times, dt multiples) lie within the merge window's neighbourhood of each other -
+            # which Hamiltonian "the step ending at t" has then depends on which of the two the grid kept; the times oracle above still applies
+            cz = sorted({i * float(dt) / float(T) for i in range(int(np.floor(float(T) / dt)) + 1)} | {1.0} | set(allev))
+            if any(1e-13 < b - a < 1e-9 for a, b in zip(cz, cz[1:])):
                 continue
             for t in exp:
                 o = ref.observables(t)
@@ -220,4 +247,6 @@ def run_case(case):
                 if not err <= lim:
                     return result(False, sig=f"value|{be}|{tag}", msg=f"{label}: {tag} stored for t={t} is {np.round(g, 6).tolist()} but the state at exactly that time gives {np.round(o['occupation' if tag.startswith('occupation') else 'energy'], 6).tolist()} (err {err:.2e})", outcome="value", states=states, transitions=transitions)
         nontriv += any(abs((e * T / dt) - round(e * T / dt)) > 1e-6 for e in allev)
+    if known_hit is not None:
+        return result(False, sig="times|requested-time-within-tolerance-of-two-grid-times|extra", msg=known_hit + f" ({n_known} time sets of this case; everything else of the case held)", outcome=["known", states, n_known, round(chk, 3)], states=max(states, 1), transitions=max(transitions, 1), nontrivial=nontriv > 0)
     return result(True, outcome=["ok", states, round(chk, 3)], states=max(states, 1), transitions=max(transitions, 1), nontrivial=nontriv > 0)
